@@ -16,8 +16,11 @@ EXPLANATION = (
     "step on which a sub-term decreases is carried to the enclosing rounded term and, if it survives, to the score "
     "itself. A surviving step is a pair of concrete vectors on which the value graph of the score decreases and is "
     "reported with both vectors. v4: the lookup is monotone along every digit increment, the level tables strictly "
-    "monotone, and inside one macrovector the score is value - mean of non-negative multiples of the severity distances "
-    "(from the C02 tail equality); monotonicity across macrovector boundaries is listed as undecided."
+    "monotone; the value graph of the score is the v4.0 algorithm on the code's own lookup and depth tables (tail), the "
+    "digits are the specification's classifiers (eq), the search is a first fit and the highest-severity vectors of a "
+    "class are interchangeable (search, cross): the score is then a function of five per-class signatures (digits, level "
+    "sum, all-None flag) and every single-metric severity step is compared on all signature tuples in exact rationals "
+    "(C14.v4.cross), within and across macrovector boundaries, with two concrete vectors as witness."
 )
 
 
